@@ -17,14 +17,23 @@ import (
 // a small in-place generator on gengo.Execute: one method per struct type of the package
 type c12gen struct {
 	generator.GoGenerator
-	pkg string
+	pkg      string
+	separate bool
 }
 
 func (x *c12gen) Filter(c *generator.Context, t *types.Type) bool {
+	if x.separate && strings.Contains(t.Name.Name, "[") {
+		return false // a generic declaration: its name is no identifier
+	}
 	return t.Name.Package == x.pkg && t.Kind == types.Struct
 }
 func (x *c12gen) GenerateType(c *generator.Context, t *types.Type, w io.Writer) error {
 	sw := generator.NewSnippetWriter(w, c, "$", "$")
+	if x.separate {
+		// written into a package of its own: no methods, a constant per type
+		sw.Do("// Generated for $.Name.Name$\nconst ZZ$.Name.Name$ = $.Members|len$\n\n", t)
+		return sw.Error()
+	}
 	sw.Do("// Generated for $.|raw$\nfunc (in *$.|raw$) ZZGenerated() int { return $.Members|len$ }\n\n", t)
 	return sw.Error()
 }
@@ -45,6 +54,14 @@ func c12regen(g *Gen) {
 		os.Chdir(dir)
 		pkg := prog[len(prog)-1]
 		outFile := filepath.Join(dir, strings.TrimPrefix(pkg.Path, "ex.test/"), "zz_generated.c12.go")
+		// every other program: the output goes to a package of its own (a directory holding only
+		// generated files) and the inputs are given by a wildcard
+		separate := i%2 == 1
+		patterns := []string{pkg.Path}
+		if separate {
+			outFile = filepath.Join(dir, "gen", "zz_generated.c12.go")
+			patterns = []string{"./..."}
+		}
 		var problems []string
 		var firstOut []byte
 		firstDump := ""
@@ -58,15 +75,19 @@ func c12regen(g *Gen) {
 			getTargets := func(c *generator.Context) []generator.Target {
 				dump = dumpUniverse(c.Universe)
 				p := c.Universe[pkg.Path]
+				tn, tp, td := p.Name, p.Path, p.Dir
+				if separate {
+					tn, tp, td = "gen", "ex.test/gen", filepath.Join(dir, "gen")
+				}
 				return []generator.Target{&generator.SimpleTarget{
-					PkgName: p.Name, PkgPath: p.Path, PkgDir: p.Dir, HeaderComment: header,
+					PkgName: tn, PkgPath: tp, PkgDir: td, HeaderComment: header,
 					FilterFunc: func(c *generator.Context, t *types.Type) bool { return t.Name.Package == p.Path },
 					GeneratorsFunc: func(c *generator.Context) []generator.Generator {
-						return []generator.Generator{&c12gen{GoGenerator: generator.GoGenerator{OutputFilename: "zz_generated.c12.go"}, pkg: p.Path}}
+						return []generator.Generator{&c12gen{GoGenerator: generator.GoGenerator{OutputFilename: "zz_generated.c12.go"}, pkg: p.Path, separate: separate}}
 					},
 				}}
 			}
-			err = gengo.Execute(namer.NameSystems{"raw": namer.NewRawNamer(pkg.Path, nil)}, "raw", getTargets, gengo.StdBuildTag, []string{pkg.Path})
+			err = gengo.Execute(namer.NameSystems{"raw": namer.NewRawNamer(pkg.Path, nil)}, "raw", getTargets, gengo.StdBuildTag, patterns)
 			if err != nil {
 				problems = append(problems, label+": "+err.Error())
 				return
@@ -91,13 +112,17 @@ func c12regen(g *Gen) {
 		if firstOut != nil {
 			stale := string(firstOut)
 			if k := strings.Index(stale, "package "); k > 0 {
-				stale = stale[:k] + "package " + pkg.Name + "\n\n// stale\ntype ZZStale struct{ X *int }\n"
+				pn := pkg.Name
+				if separate {
+					pn = "gen"
+				}
+				stale = stale[:k] + "package " + pn + "\n\n// stale\ntype ZZStale struct{ X *int }\n"
 			}
 			stale += strings.Repeat("// stale filler, longer than anything the tool writes now\n", 400)
 			os.WriteFile(outFile, []byte(stale), 0644)
 		}
 		run("third run (stale previous output)")
-		g.Emit("C12.regen!", list(atom(pkg.Src[:min(len(pkg.Src), 400)]), atom(strings.Join(problems, "; "))), boolS(len(problems) == 0), "regen-execute")
+		g.Emit("C12.regen!", list(atom(pkg.Src[:min(len(pkg.Src), 400)]), atom(strings.Join(problems, "; "))), boolS(len(problems) == 0), "regen-execute", map[bool]string{true: "regen-separate-output-wildcard", false: "regen-in-place"}[separate])
 		os.Chdir(cwd)
 		os.RemoveAll(dir)
 	}
